@@ -7,6 +7,11 @@ VERIF = os.path.dirname(os.path.dirname(os.path.abspath(__file__)))
 BASELINE = ("cd /repo && /venv/bin/python -m pytest -ra -q -p no:cacheprovider --timeout=900 "
             "--continue-on-collection-errors")
 
+ENG_NOTE = ('Serial transactions in one process (tx_lock) - statement-level races between engine processes are out of reach here; sqlite; '
+            'RPC transport, post-commit thread spawning, scheduler threads and action bodies replaced by the deterministic world; reliable '
+            'messaging (duplicates/reordering explored, no loss).')
+ENG_TECH = 'TLA+ property formulas (EngineProps) evaluated by TLC on every step of recorded runs of the real engine under controlled schedules'
+
 # id -> (engine, category, text, note, technique, design_ref)
 CHECKS = {
     'C19': ('egress', 'model_checking',
@@ -60,6 +65,30 @@ CHECKS = {
             'Fork/join shapes (nested joins, joins fed by on-error/on-complete, guards that do not fire) and reverse requires-graphs under '
             'adversarial completion orders; TLC judges JoinGate, JoinOnce, Caused, ReqGate, OnlyNeededOnce, NoWaitingAtRest on every step.',
             'Serial transactions in one process (tx_lock) - statement-level races between engine processes are out of reach here; sqlite; RPC transport, post-commit thread spawning, scheduler threads and action bodies replaced by the deterministic world; reliable messaging (duplicates/reordering explored, no loss).', 'TLA+ property formulas (EngineProps) evaluated by TLC on every step of recorded runs of the real engine under controlled schedules', '5, 7-C04'),
+    'C06': ('engine', 'model_checking',
+            'Engine side: runs of generated programs (incl. sub-workflows) with up to 2 messages (action results, sub-workflow results, '
+            'start-task, start-workflow-with-id, run-action requests) re-delivered at random later points; TLC judges DupNoEffect (a '
+            'redelivery leaves every row unchanged), NoDoubleDispatch, StartOnce, ResultOnce on every step. Executor side: Executor.tla '
+            '(refuse-if-redelivered-and-unsafe, at most one successfully sent result) model-checked exhaustively and every one of its 216 '
+            'input combinations run through the real ExecutorServer.run_action with scripted action body / engine client, validated by TLC.',
+            ENG_NOTE, ENG_TECH + ' + exhaustive executor model with trace validation', '5, 6.4, 7-C06'),
+    'C07': ('engine', 'model_checking',
+            'with-items tasks over 0..4 items (actions and sub-workflows, concurrency absent/1..n+1, per-item outcomes, rerun with reset '
+            'on/off) under schedules interleaving item completions with the keyed accounting jobs; TLC judges WithinLimit, OnePerIndex, '
+            'CompleteAfterAll, WithItemsFinalState on every step.',
+            ENG_NOTE, ENG_TECH, '5, 7-C07'),
+    'C09': ('engine', 'model_checking',
+            'Programs whose tasks call sub-workflows (plain and with-items callers, child outcomes, cancel and pause/resume midway); TLC '
+            'judges ParentMirrorsChild, RootAndNamespace, TreeCancelled, StartOnce on every step.',
+            ENG_NOTE, ENG_TECH, '5, 7-C09'),
+    'C10': ('engine', 'model_checking',
+            'Pause at a random step and resume later (catalogue shapes: fixed grid of pause/resume points); TLC judges PauseAck, '
+            'NoNewTasksWhilePaused, StartOnce, NoDoubleDispatch and - after resume - NoHang / NoWaitingAtRest on every step.',
+            ENG_NOTE, ENG_TECH, '5, 7-C10'),
+    'C11': ('engine', 'model_checking',
+            'Stop with ERROR / CANCELLED / SUCCESS at a random step (some while PAUSED), results in flight delivered afterwards; TLC judges '
+            'StopAck, NoNewTasksAfterStop, FinishedFrozen, TreeCancelled on every step.',
+            ENG_NOTE, ENG_TECH, '5, 7-C11'),
 }
 
 NOT_YET = 'check not built yet (build in progress; see DESIGN.md section 12)'
